@@ -1197,6 +1197,11 @@ def phase_meson(chk: common.Check) -> None:
                 chk.violation('meson:if-branch-disagrees-with-reference',
                               {'kind': 'meson-narrow', 'project_version': pv, 'cs': cs, 'meson_version': mv, 'branch': br[kk]})
         check_meson_records(chk, r.records, f'nar{pi}:{pv}')
+        fsn, cntn = flow_findings(r.records, G['D'])
+        for kf, vf_ in cntn.items():
+            chk.count('monitor:meson:flow:' + kf, vf_)
+        for mech, w in fsn[:3]:
+            chk.violation(mech, dict(w, meson_build='\n'.join(lines) + '\n', project_version=pv))
         # warnings "always evaluates to" must correspond 1:1 to determinate always() answers in evaluate_if
         det = [ev for ev in r.records if ev.get('ev') == 'always' and ev.get('stack', '').endswith('evaluate_if') and ev['result'] is not None]
         nwarn = r.out.count('always evaluates to') + r.err.count('always evaluates to')
@@ -1221,6 +1226,265 @@ def phase_meson(chk: common.Check) -> None:
         if pi == 0:
             chk.sample({'meson_version': mv, 'project': pv, 'always_calls': [(str(e['self']), str(e['inner']), e['result']) for e in det[:3]]})
     chk.notes['meson_version_seen'] = mv
+    phase_meson_chains(chk, scratch)
+
+
+# ---- per-clause data flow of the narrowing (if / elif / else chains) -------------------------------------------
+
+def _members(d: T.Optional[dict], D: T.Sequence[str]) -> T.Optional[int]:
+    """Reference membership bitset over D of a recorded Range (None = not a plain Range record)."""
+    if d is None or 'repr' in d:
+        return None
+    if d['is_empty']:
+        return 0
+    sp = spec_of(d)
+    m = 0
+    for i, s in enumerate(D):
+        if ref.in_spec(sp, s):
+            m |= 1 << i
+    return m
+
+
+def flow_findings(records: T.Sequence[dict], D: T.Sequence[str]) -> T.Tuple[T.List[T.Tuple[str, dict]], T.Dict[str, int]]:
+    """Offline checker over one meson run: the operands the interpreter hands to the range algebra for an
+    if/elif clause must be the range of the version checks evaluated in THAT clause's condition, and the range a
+    feature check inside a body is judged against must be (project range) n (own version condition of every
+    enclosing taken clause) - decided by brute-force membership over D.  Nothing is assumed about what a
+    condition *means* (negation, and/or): only which checks were evaluated where."""
+    out: T.List[T.Tuple[str, dict]] = []
+    cnt = {'clauses': 0, 'clauses-with-version-check': 0, 'clauses-without-version-check': 0, 'elif-clauses': 0,
+           'always-attributed': 0, 'intersect-attributed': 0, 'feature-checks-in-narrowed-body': 0,
+           'feature-checks-attributed': 0, 'else-blocks': 0, 'unmatched': 0}
+    project: T.Optional[dict] = None
+    stack: T.List[dict] = []
+    ALL = (1 << len(D)) - 1
+    memo: T.Dict[str, T.Optional[int]] = {}
+
+    def mem(d: T.Optional[dict]) -> T.Optional[int]:
+        k = json.dumps(d, sort_keys=True)
+        if k not in memo:
+            memo[k] = _members(d, D)
+        return memo[k]
+
+    for ev in records:
+        kind = ev.get('ev')
+        st = ev.get('stack', '')
+        top = stack[-1] if stack else None
+        consumed = False
+        if kind == 'if_enter':
+            stack.append({'if': ev['if'], 'line': ev.get('line'), 'vc': [], 'in_clause': False, 'await': False, 'body': False,
+                          'clause': None, 'clause_line': None})
+        elif kind == 'if_exit':
+            if top is not None and top['if'] == ev['if']:
+                stack.pop()
+            else:
+                cnt['unmatched'] += 1
+        elif kind == 'clause_begin':
+            if top is None or top['if'] != ev['if']:
+                cnt['unmatched'] += 1
+                continue
+            top.update(vc=[], in_clause=True, body=False, clause=ev['clause'], clause_line=ev.get('line'))
+            top['await'] = False
+            cnt['clauses'] += 1
+            if ev['clause'] > 0:
+                cnt['elif-clauses'] += 1
+        elif kind == 'clause_end':
+            if top is None or top['if'] != ev['if']:
+                cnt['unmatched'] += 1
+                continue
+            top['in_clause'] = False
+            top['await'] = True
+            top['body'] = ev.get('value') is True
+            cnt['clauses-with-version-check' if top['vc'] else 'clauses-without-version-check'] += 1
+            consumed = True
+        elif kind == 'else_begin':
+            if top is not None and top['if'] == ev['if']:
+                top.update(vc=[], body=True, clause='else')
+                cnt['else-blocks'] += 1
+        elif kind == 'to_range' and st.endswith('handle_meson_version'):
+            if not stack:
+                project = ev['result']
+        elif kind == 'to_range' and st.endswith('version_compare_method'):
+            if top is not None and top['in_clause']:
+                top['vc'].append(ev['result'])
+        elif kind in ('always', 'intersect') and st.endswith('evaluate_if') and top is not None and top['await']:
+            consumed = True
+            operand = ev['inner'] if kind == 'always' else ev['x']
+            cnt[kind + '-attributed'] += 1
+            w = {'kind': 'meson-flow', 'if_line': top['line'], 'clause': top['clause'], 'clause_line': top['clause_line'],
+                 'call': kind, 'operand': operand, 'result': ev['result'],
+                 'version_checks_evaluated_in_this_clause': list(top['vc'])}
+            if not top['vc']:
+                out.append(('narrowing:clause-without-version-check-is-narrowed-by-another-clauses-condition', w))
+            elif operand != top['vc'][-1] and mem(operand) != mem(top['vc'][-1]):
+                out.append(('narrowing:operand-is-not-the-range-of-this-clauses-version-check', w))
+        elif kind == 'cond_min' and isinstance(ev.get('condition'), dict) and project is not None:
+            got = mem(ev['condition'])
+            exp = mem(project)
+            narrowed = False
+            for fr in stack:
+                if fr['body'] and not fr['in_clause'] and fr['vc']:
+                    m = mem(fr['vc'][-1])
+                    if m is None or exp is None:
+                        exp = None
+                        break
+                    exp &= m
+                    narrowed = True
+            if got is not None and exp is not None:
+                cnt['feature-checks-attributed'] += 1
+                if narrowed:
+                    cnt['feature-checks-in-narrowed-body'] += 1
+                if got != exp:
+                    diff = got ^ exp
+                    i = (diff & -diff).bit_length() - 1
+                    out.append(('narrowing:feature-check-range-is-not-project-range-intersected-with-own-clause-conditions',
+                                {'kind': 'meson-flow', 'feature_version': ev['minimum'], 'range_used': ev['condition'], 'project_range': project,
+                                 'enclosing_taken_clauses': [{'if_line': fr['line'], 'clause': fr['clause'], 'version_check': fr['vc'][-1] if fr['vc'] else None}
+                                                             for fr in stack if fr['body'] and not fr['in_clause']],
+                                 'v': D[i], 'v_in_range_used': bool(got >> i & 1), 'v_in_expected': bool(exp >> i & 1),
+                                 'if_line': stack[-1]['line'] if stack else None}))
+        if not consumed and top is not None and kind not in ('always', 'intersect'):
+            top['await'] = False
+    _ = ALL
+    return out, cnt
+
+
+CLAUSE_KINDS = ['V', 'NV', 'VT', 'TV', 'PT', 'PF', 'SV']
+
+
+def _clause(kind: str, cs: T.Sequence[str], sv: str) -> str:
+    args = ', '.join(q(c) for c in cs)
+    v = 'meson.version().version_compare(%s)' % args
+    return {'V': v, 'NV': 'not ' + v, 'VT': v + ' and true', 'TV': 'true and ' + v, 'PT': 'true', 'PF': '1 == 2',
+            'SV': '%s.version_compare(%s)' % (q(sv), args)}[kind]
+
+
+def _clause_truth(kind: str, cs: T.Sequence[str], sv: str, mv: str) -> T.Optional[bool]:
+    if kind == 'PT':
+        return True
+    if kind == 'PF':
+        return False
+    vals = [ref.satisfies(sv if kind == 'SV' else mv, c) for c in cs]
+    if None in vals:
+        return None
+    return (not all(vals)) if kind == 'NV' else all(vals)
+
+
+FEATURE_USES = ["'abc'.replace('a', 'b')",          # FeatureNew 0.58.0
+                "'a' in 'abc'",                     # FeatureNew 1.0.0
+                "'abc'.substring(1)",               # FeatureNew 0.56.0
+                "'abc'.replace('b', 'c')"]
+
+
+def chain_project(pv: str, chains: T.Sequence[T.Sequence[T.Tuple[str, T.List[str], str]]], has_else: T.Sequence[bool]) -> T.Tuple[str, T.List[T.Tuple[int, int]]]:
+    """meson.build text + (first line, last line) of every chain."""
+    lines = ["project('c19flow', meson_version: %s)" % q(pv), "message('MV|0|' + meson.version())"]
+    spans = []
+    for ci, chain in enumerate(chains):
+        first = len(lines) + 1
+        for k, (kind, cs, sv) in enumerate(chain):
+            lines.append(('if ' if k == 0 else 'elif ') + _clause(kind, cs, sv))
+            lines.append("  f%d_%d = %s" % (ci, k, FEATURE_USES[(ci + k) % len(FEATURE_USES)]))
+            lines.append("  message('CH|%d|%d')" % (ci, k))
+        if has_else[ci]:
+            lines.append('else')
+            lines.append("  f%d_e = %s" % (ci, FEATURE_USES[ci % len(FEATURE_USES)]))
+            lines.append("  message('CH|%d|else')" % ci)
+        lines.append('endif')
+        spans.append((first, len(lines)))
+    return '\n'.join(lines) + '\n', spans
+
+
+def run_chain_project(text: str, scratch: str, name: str) -> T.Any:
+    from vf.monitors import c19_version
+    src = os.path.join(scratch, name)
+    runner.write_tree(src, {'meson.build': text})
+    return runner.meson(['setup', '--backend=none', os.path.join(src, 'b')], cwd=src, monitors=[c19_version.install], timeout=180)
+
+
+def phase_meson_chains(chk: common.Check, scratch: str) -> None:
+    """if / elif / else chains mixing clauses with and without a meson.version() check (every ordered pair of
+    clause kinds, plus random longer chains); bodies use FeatureNew features so that feature checks happen inside."""
+    quick = chk.tier == 'quick'
+    rng = chk.rng
+    D = G['D']
+    # constraints away from the development-version window (meson.version() 1.12.99 vs the 1.13.0 used for project())
+    false_now = [['>=99.0'], ['<0.50'], ['>=2.0.0'], ['<0.55.0'], ['>=3.1', '<4'], ['==0.60.0']]
+    true_now = [['>=0.56.0'], ['>=1.0.0'], ['<99.0'], ['>=0.58', '<50'], ['>0.57.1']]
+    pvs = ['>=0.55', '>=0.50.0', '>0.52.1'] if quick else ['>=0.55', '>=0.50.0', '>0.52.1', '>=0.57.0', '>=0.40', '>= 0.49.0']
+
+    def pick_clause(kind: str, want: T.Optional[bool]) -> T.Tuple[str, T.List[str], str]:
+        sv = rng.choice(['1.0', '0.51.0', '2.3.4', '1.0rc1'])
+        if kind in ('PT', 'PF'):
+            return kind, [], sv
+        pool = (false_now + true_now) if want is None else (true_now if (want != (kind == 'NV')) else false_now)
+        return kind, list(rng.choice(pool)), sv
+
+    for pi, pv in enumerate(pvs):
+        chains: T.List[T.List[T.Tuple[str, T.List[str], str]]] = []
+        has_else: T.List[bool] = []
+        # every ordered pair (first clause false at run time, second clause of any kind)
+        for k1 in CLAUSE_KINDS:
+            if k1 == 'PT':
+                continue
+            for k2 in CLAUSE_KINDS:
+                chains.append([pick_clause(k1, False), pick_clause(k2, rng.choice([True, True, False]))])
+                has_else.append(rng.random() < 0.5)
+        for _ in range(10 if quick else 30):
+            n = rng.choice([1, 2, 3, 4])
+            chains.append([pick_clause(rng.choice(CLAUSE_KINDS), rng.choice([None, False, False, True])) for _ in range(n)])
+            has_else.append(rng.random() < 0.6)
+        text, spans = chain_project(pv, chains, has_else)
+        r = run_chain_project(text, scratch, f'flow{pi}')
+        if r.timed_out or r.rc != 0:
+            chk.inconclusive_case('meson-chain-setup-failed')
+            chk.notes['meson_chain_failure'] = r.brief()
+            continue
+        mv = meson_messages(r.out, 'MV').get(0)
+        taken: T.Dict[int, str] = {}
+        for line in r.out.splitlines():
+            if 'Message:' in line and 'CH|' in line:
+                a, b = line.split('CH|', 1)[1].split('|')[:2]
+                taken.setdefault(int(a), b.strip())
+        for ci, chain in enumerate(chains):
+            chk.case(('meson-chain', pv, tuple(k for k, _, _ in chain), has_else[ci]))
+            if mv is None:
+                continue
+            truths = [_clause_truth(k, cs, sv, mv) for k, cs, sv in chain]
+            if None in truths:
+                continue
+            exp = str(truths.index(True)) if True in truths else ('else' if has_else[ci] else None)
+            chk.count('monitor:meson:chain-branch-taken')
+            if taken.get(ci) != exp:
+                chk.violation('meson:if-branch-disagrees-with-reference',
+                              {'kind': 'meson-flow', 'project_version': pv, 'meson_build': chain_project(pv, [chain], [has_else[ci]])[0],
+                               'taken': taken.get(ci), 'expected': exp, 'meson_version': mv})
+        check_meson_records(chk, r.records, f'flow{pi}:{pv}')
+        fs, cnt = flow_findings(r.records, D)
+        for k, v in cnt.items():
+            chk.count('monitor:meson:flow:' + k, v)
+        seen_mech: T.Set[str] = set()
+        for mech, w in fs:
+            if mech in seen_mech:
+                chk.count('violations-by-mechanism:' + mech)
+                continue
+            seen_mech.add(mech)
+            # minimise: the offending chain alone, re-run
+            line = w.get('if_line')
+            ci = next((i for i, (a, b) in enumerate(spans) if line is not None and a <= line <= b), None)
+            if ci is not None:
+                small, _ = chain_project(pv, [chains[ci]], [has_else[ci]])
+                r2 = run_chain_project(small, scratch, f'flow{pi}-min{len(seen_mech)}')
+                fs2 = [f for f in flow_findings(r2.records, D)[0] if f[0] == mech] if r2.rc == 0 else []
+                if fs2:
+                    w = dict(fs2[0][1], meson_build=small, project_version=pv)
+                else:
+                    w = dict(w, meson_build=text, project_version=pv)
+            else:
+                w = dict(w, meson_build=text, project_version=pv)
+            chk.violation(mech, w)
+        if pi == 0:
+            chk.sample({'chain': chain_project(pv, [chains[1]], [has_else[1]])[0].splitlines()[2:], 'taken': taken.get(1)})
 
 
 # =============================================================================================
@@ -1283,6 +1547,18 @@ def replay(chk: common.Check, path: str) -> int:
         fs = many_findings(w['meson_version'], w['cs'])
         if None not in exp and U().version_compare_many(w['meson_version'], w['cs'])[0] != all(exp):
             fs.append(('meson:if-branch-disagrees-with-reference', w))
+    elif kind == 'meson-flow' and w.get('meson_build'):
+        runner.preload()
+        sc = common.scratch_dir('c19r')
+        r = run_chain_project(w['meson_build'], sc, 'replay')
+        if r.rc != 0 or r.timed_out:
+            print(f'[{PID}] replay: meson setup failed rc={r.rc}')
+            return 3
+        fs = flow_findings(r.records, D)[0]
+        if 'taken' in w:
+            tk = [ln.split('CH|', 1)[1].split('|')[1].strip() for ln in r.out.splitlines() if 'Message:' in ln and 'CH|' in ln]
+            if (tk[0] if tk else None) != w.get('expected'):
+                fs.append(('meson:if-branch-disagrees-with-reference', w))
     elif kind == 'meson-record':
         G['D'] = D
         c2 = common.Check(PID)
@@ -1335,7 +1611,11 @@ def main() -> int:
                   ('monitor:meson:version_check_to_range', 5), ('monitor:meson:if-version_compare-branch', 10),
                   ('reach:always@interpreterbase/interpreterbase.py:evaluate_if', 5),
                   ('reach:intersect@interpreterbase/interpreterbase.py:evaluate_if', 5),
-                  ('monitor:meson:cond_min(Range-argument)', 1)]:
+                  ('monitor:meson:cond_min(Range-argument)', 1),
+                  ('monitor:meson:flow:clauses-with-version-check', 20), ('monitor:meson:flow:clauses-without-version-check', 20),
+                  ('monitor:meson:flow:elif-clauses', 20), ('monitor:meson:flow:always-attributed', 20),
+                  ('monitor:meson:flow:intersect-attributed', 20), ('monitor:meson:flow:feature-checks-in-narrowed-body', 5),
+                  ('monitor:meson:flow:else-blocks', 5), ('monitor:meson:chain-branch-taken', 30)]:
         chk.require(m, mn)
     for c in ('always:True', 'always:False', 'always:None', 'intersect:empty', 'intersect:nonempty', 'cond_min:True', 'cond_min:False',
               'to_range:with-!=', 'to_range:empty-result'):
@@ -1349,7 +1629,7 @@ def main() -> int:
         'monitor:Range.__contains__(spec x version)', 'monitor:Range.intersect(membership-iff-both)',
         'monitor:version_check_to_range(superset-of-all,subset-of-non-!=)', 'monitor:version_check_to_range(start=)',
         'monitor:version_compare_condition_with_min', 'monitor:meson:str.version_compare', 'monitor:meson:if-version_compare-branch',
-        'monitor:directed-order-probes'))
+        'monitor:directed-order-probes', 'monitor:meson:chain-branch-taken', 'monitor:meson:flow:clauses'))
     if chk.counters.get('harness:fastpath-not-confirmed'):
         chk.inconclusive.append('harness fast path flagged cases the detail predicate did not confirm')
     return chk.finish(
